@@ -3,6 +3,7 @@
 mod sym;
 mod entry;
 mod entry2;
+mod probe;
 use std::collections::BTreeMap;
 use std::panic::{catch_unwind, AssertUnwindSafe};
 
@@ -218,6 +219,7 @@ fn main() {
                     }
                 }
             }
+            "probe" => probe::probe(arg(&args, "unit", "")),
             other => entry::dispatch(other, &args, line.trim()),
         }
     }
